@@ -19,6 +19,10 @@ bytes of a `str`, or one byte per element (an index into the harness's element p
   cow drop <h> | dropt <h>  → ok          (dropt: dropped on another thread — same heap operations)
   cow intoownedu <h> <fc>   → unwound | h<k> <hex> cap=<n>   (into_owned with a panicking element Clone armed)
   cow cloneu <h>            → unwound | h<k> <hex> p=<1|0>   (clone with a panicking element Clone armed)
+  cow clonefrom <hd> <hs>   → h<k> <hex> p=<1|0>     (dst.clone_from(&src): dst's old handle dies, h<k> is its new value;
+                                                      p: same data pointer as the SOURCE)
+  cow clonefromu <hd> <hs>  → unwound | h<k> <hex> p=<1|0>   (clone_from with a panicking element Clone armed)
+  cow readu <h1> <h2>       → unwound                (a comparison / hash whose element operation panics)
 
 Every answer ends with ` n=<live allocations | *> s=<strong counts of the arcs the caller still holds, ~ otherwise>`.
 A memory error of the model answers `error <name>` and poisons the rest of the case.
@@ -65,6 +69,9 @@ def parseOp : List String → Option Op
   | ["dropt", h] => do pure (.drop (← h.toNat?))
   | ["intoownedu", h, fc] => do pure (.intoOwnedUnwind (← h.toNat?) (← fc.toNat?))
   | ["cloneu", h] => do pure (.cloneUnwind (← h.toNat?))
+  | ["clonefrom", hd, hs] => do pure (.cloneFrom (← hd.toNat?) (← hs.toNat?))
+  | ["clonefromu", hd, hs] => do pure (.cloneFromUnwind (← hd.toNat?) (← hs.toNat?))
+  | ["readu", h1, h2] => do pure (.readUnwind (← h1.toNat?) (← h2.toNat?))
   | _ => none
 
 def showAns (s' : St) (op : Op) : Ans → String
@@ -72,6 +79,8 @@ def showAns (s' : St) (op : Op) : Ans → String
     match op with
     | .clone src => s!"h{h} {showContent c} p={if samePtr s' src h then 1 else 0}"
     | .cloneUnwind src => s!"h{h} {showContent c} p={if samePtr s' src h then 1 else 0}"
+    | .cloneFrom _ src => s!"h{h} {showContent c} p={if samePtr s' src h then 1 else 0}"
+    | .cloneFromUnwind _ src => s!"h{h} {showContent c} p={if samePtr s' src h then 1 else 0}"
     | _ => s!"h{h} {showContent c}"
   | .owned h c cap => s!"h{h} {showContent c} cap={cap}"
   | .std h b c => s!"h{h} {if b then "B" else "O"} {showContent c}"
